@@ -1,5 +1,5 @@
 """Rules on the command-line layer (bins) shared by C05 and C17."""
-from ..core import Site, callee_of, callee_is, callee_name, callee_matches, strip_generics, op_const, op_place, origins
+from ..core import Site, callee_of, callee_is, callee_name, callee_matches, strip_generics, op_const, op_place, origins, data_deps, derives_from_local, callee_decl
 from ..flow import conditions, consumers
 
 SOLVER_TRAITS = (
@@ -134,3 +134,567 @@ def rule_answer_after_solver(ctx):
                 st.extend(b.succ[x])
             r.check(not ret_wo, anchor, "return-without-write", "every normal return passes through a write", "a path returns normally without writing an answer", b.loc())
     return n
+
+
+# ------------------------------------------------------------------------------------------
+# C05.1 problem names
+
+PROBLEMS_21 = sorted("%s-%s" % (q, s) for q in ("SE", "DC", "DS") for s in ("GR", "CO", "PR", "ST", "SST", "STG", "ID"))
+
+
+def enum_variant_aggs(body, enum_path):
+    """(site, variant) of every construction of `enum_path` in body"""
+    out = []
+    for s in body.sites():
+        n = s.node
+        if s.si is not None and n["k"] == "assign" and n["rv"]["k"] == "aggregate":
+            a = n["rv"]["agg"]
+            if a["kind"] == "adt" and a["path"] == enum_path:
+                out.append((s, a["variant"]))
+    return out
+
+
+def string_match_table(body, enum_path):
+    """{literal: variant} for `match s { "lit" => Variant, .. }` lowered to chains of str eq; also
+    returns the eq call sites used"""
+    from .satlayer import str_test_of
+
+    table = {}
+    eqs = []
+    problems = []
+    for s, variant in enum_variant_aggs(body, enum_path):
+        pos = []
+        for c in conditions(body, s.bb):
+            t = str_test_of(body, c)
+            if t and t[0] == "eq" and t[2]:
+                pos.append((t[1], c))
+        if len(pos) != 1:
+            problems.append((s, variant, [p[0] for p in pos]))
+            continue
+        lit, c = pos[0]
+        if lit in table and table[lit] != variant:
+            problems.append((s, variant, [lit]))
+        table[lit] = variant
+        eqs.append(c)
+    return table, eqs, problems
+
+
+def discr_const_table(prog, body, enum_path):
+    """{variant: constant} for `match self { V => "lit" }` (AsRef<str>)"""
+    adt = prog.adt(enum_path)
+    idx = {str(v["idx"]): v["name"] for v in adt["variants"]}
+    table = {}
+    from ..flow import switch_subject
+    from ..core import switch_sites
+
+    for sw in switch_sites(body):
+        subj = switch_subject(body, sw)
+        if not subj or not subj[1] or subj[0]["l"] != 1:
+            continue
+        for val, bb in sw.node["targets"]:
+            v = idx.get(val)
+            region = {bb} | body.blocks_reachable_from(bb, avoid={sw.bb})
+            lits = set()
+            for x in region:
+                for st in body.blocks[x]["stmts"]:
+                    if st["k"] == "assign" and st["rv"]["k"] == "use":
+                        k = op_const(st["rv"]["ops"][0])
+                        if k is not None and "str" in k:
+                            lits.add(k["str"])
+            # only constants assigned in this arm exclusively
+            others = set()
+            for val2, bb2 in sw.node["targets"]:
+                if bb2 != bb:
+                    for x in ({bb2} | body.blocks_reachable_from(bb2, avoid={sw.bb})):
+                        for st in body.blocks[x]["stmts"]:
+                            if st["k"] == "assign" and st["rv"]["k"] == "use":
+                                k = op_const(st["rv"]["ops"][0])
+                                if k is not None and "str" in k:
+                                    others.add((x, k["str"]))
+            mine = set()
+            for x in region:
+                for st in body.blocks[x]["stmts"]:
+                    if st["k"] == "assign" and st["rv"]["k"] == "use":
+                        k = op_const(st["rv"]["ops"][0])
+                        if k is not None and "str" in k and (x, k["str"]) not in others:
+                            mine.add(k["str"])
+            table[v] = sorted(mine)
+    return table
+
+
+def rule_problem_names(ctx):
+    prog = ctx.prog
+    r = ctx.rule(
+        "problem-names",
+        "the names printed by `--problems` (Query x Semantics via AsRef<str>, template `{}-{}`) are exactly the 21 ICCMA names, and the "
+        "parser (first hyphen, to_ascii_lowercase, TryFrom<&str>) accepts exactly lowercase(name) -> the same variant",
+    )
+    names = {}
+    for enum_path, expected in (("aa::problem::Semantics", ["GR", "CO", "PR", "ST", "SST", "STG", "ID"]), ("aa::problem::Query", ["SE", "DC", "DS"])):
+        adt = prog.adt(enum_path)
+        if not r.require_anchor(adt, "enum " + enum_path):
+            return
+        variants = [v["name"] for v in adt["variants"]]
+        r.check(sorted(variants) == sorted(expected), enum_path, "variants=%s" % variants, "variants are %s" % variants, loc=None)
+        asref = prog.lib("<%s as core::convert::AsRef<str>>::as_ref" % enum_path)
+        tryfrom = prog.lib("<%s as core::convert::TryFrom<&str>>::try_from" % enum_path)
+        if not (r.require_anchor(asref, "AsRef<str> for " + enum_path) and r.require_anchor(tryfrom, "TryFrom<&str> for " + enum_path)):
+            return
+        at = discr_const_table(prog, asref, enum_path)
+        ok_as = all(at.get(v) == [v] for v in variants)
+        r.check(ok_as, enum_path + "|AsRef", "table=%s" % sorted(at.items()), "AsRef<str> prints each variant by its own name", "AsRef<str> table is %s" % sorted(at.items()), asref.loc())
+        names[enum_path] = {v: (at.get(v) or ["?"])[0] for v in variants}
+        tt, eqs, problems = string_match_table(tryfrom, enum_path)
+        want = {names[enum_path][v].lower(): v for v in variants}
+        r.check(tt == want and not problems, enum_path + "|TryFrom", "table=%s" % sorted(tt.items()), "TryFrom<&str> maps exactly %s" % sorted(tt.items()), "TryFrom<&str> table %s differs from lowercase(AsRef) table %s" % (sorted(tt.items()), sorted(want.items())), tryfrom.loc())
+        # scrutinee = to_ascii_lowercase(param)
+        ok_lc = bool(eqs)
+        for c in eqs:
+            for o in origins(tryfrom, c.place, transparent=()):
+                if o.kind == "call":
+                    _, calls, _ = data_deps(tryfrom, o.site.node["args"][0])
+                    if not any(callee_matches(callee_of(x), r"str::to_ascii_lowercase$|str::to_lowercase$") and derives_from_local(tryfrom, x.node["args"][0], 1) for x in calls):
+                        ok_lc = False
+        r.check(ok_lc, enum_path + "|TryFrom", "not-case-insensitive", "the matched string is to_ascii_lowercase(input)", "the string matched by TryFrom is not the lower-cased input: names are not accepted case-insensitively", tryfrom.loc())
+        # wildcard arm -> Err
+        errs = [s for s in tryfrom.sites() if s.si is not None and s.node["k"] == "assign" and s.node["rv"]["k"] == "aggregate" and s.node["rv"]["agg"].get("variant") == "Err"]
+        r.check(len(errs) >= 1, enum_path + "|TryFrom", "no-err-arm", "unknown names give Err", loc=tryfrom.loc())
+        # EnumIter coverage
+        itb = prog.lib(enum_path + "Iter::get")
+        if r.require_anchor(itb, "EnumIter::get for " + enum_path):
+            got = sorted(v for _, v in enum_variant_aggs(itb, enum_path))
+            r.check(got == sorted(variants), enum_path + "|EnumIter", "iter=%s" % got, "the enumeration yields every variant once", "the enumeration yields %s" % got, itb.loc())
+    # listing template and parser
+    lst = prog.lib("aa::problem::Query::iter_problem_strings")
+    rd = prog.lib("aa::problem::Query::read_problem_string")
+    if not (r.require_anchor(lst, "Query::iter_problem_strings") and r.require_anchor(rd, "Query::read_problem_string")):
+        return
+    from ..fmtq import format_sites
+
+    fss = [fs for x in prog.with_closures(lst) for fs in format_sites(x)]
+    ok_t = len(fss) == 1 and fss[0].template == "{}-{}"
+    order_ok = False
+    if ok_t and len(fss[0].args) == 2 and all(fss[0].args):
+        b = fss[0].body
+        def asref_of(op):
+            _, calls, _ = data_deps(b, op)
+            return {strip_generics(callee_name(callee_of(c))) for c in calls if callee_matches(callee_of(c), r"AsRef<str>>::as_ref$|convert::AsRef::as_ref$")}
+        a0, a1 = asref_of(fss[0].args[0][1]), asref_of(fss[0].args[1][1])
+        order_ok = any("Query" in x for x in a0) and any("Semantics" in x for x in a1) and not any("Semantics" in x for x in a0)
+    r.check(ok_t and order_ok, lst.id, "template=%s" % [f.template for f in fss], "names are printed as `<query>-<semantics>`", "the listing template/argument order is not `<query>-<semantics>`", lst.loc())
+    # parser: split at the first '-' ; left -> Query::try_from, right -> Semantics::try_from
+    finds = [s for s in rd.calls() if callee_matches(callee_of(s), r"^core::str::find$")]
+    ok_find = len(finds) == 1 and (op_const(finds[0].node["args"][1]) or {}).get("int") == 45
+    tq = [s for s in rd.calls() if callee_matches(callee_of(s), r"^<aa::problem::Query as core::convert::TryFrom<&str>>::try_from$")]
+    ts = [s for s in rd.calls() if callee_matches(callee_of(s), r"^<aa::problem::Semantics as core::convert::TryFrom<&str>>::try_from$")]
+    ok_parts = False
+    if len(tq) == 1 and len(ts) == 1:
+        def range_kind(s):
+            kinds = set()
+            for o in origins(rd, s.node["args"][0]):
+                if o.kind == "call" and callee_matches(o.data, r"ops::index::Index"):
+                    for oo in origins(rd, o.site.node["args"][1], transparent=()):
+                        if oo.kind == "agg":
+                            kinds.add(oo.data.get("path"))
+            return kinds
+        ok_parts = range_kind(tq[0]) == {"core::ops::range::Range"} and range_kind(ts[0]) == {"core::ops::range::RangeFrom"}
+    r.check(ok_find and ok_parts, rd.id, "split", "the problem string is split at its first hyphen into query and semantics", "the parser does not split `<query>-<semantics>` at the first hyphen", rd.loc())
+    # final oracle: the 21 names of the statement
+    if all(p in names for p in ("aa::problem::Semantics", "aa::problem::Query")):
+        got = sorted("%s-%s" % (q, s) for q in names["aa::problem::Query"].values() for s in names["aa::problem::Semantics"].values())
+        r.check(got == PROBLEMS_21, "problem-set", "names=%d" % len(got), "the problem set is exactly the 21 names SE/DC/DS x GR/CO/PR/ST/SST/STG/ID", "the problem set is %s" % got)
+
+
+# ------------------------------------------------------------------------------------------
+# C02.2 / C05.2 dispatch tables
+
+DISPATCH_ORACLE = {
+    "solvers::specs::SingleExtensionComputer": {"GR": "GroundedSemanticsSolver", "CO": "GroundedSemanticsSolver", "PR": "PreferredSemanticsSolver", "ST": "StableSemanticsSolver", "SST": "SemiStableSemanticsSolver", "STG": "StageSemanticsSolver", "ID": "IdealSemanticsSolver"},
+    "solvers::specs::CredulousAcceptanceComputer": {"GR": "GroundedSemanticsSolver", "CO": "CompleteSemanticsSolver", "PR": "CompleteSemanticsSolver", "ST": "StableSemanticsSolver", "SST": "SemiStableSemanticsSolver", "STG": "StageSemanticsSolver", "ID": "IdealSemanticsSolver"},
+    "solvers::specs::SkepticalAcceptanceComputer": {"GR": "GroundedSemanticsSolver", "CO": "GroundedSemanticsSolver", "PR": "PreferredSemanticsSolver", "ST": "StableSemanticsSolver", "SST": "SemiStableSemanticsSolver", "STG": "StageSemanticsSolver", "ID": "IdealSemanticsSolver"},
+}
+QUERY_ORACLE = {"SE": "solvers::specs::SingleExtensionComputer", "DC": "solvers::specs::CredulousAcceptanceComputer", "DS": "solvers::specs::SkepticalAcceptanceComputer"}
+
+
+def arm_regions(body, sw):
+    """{value: blocks exclusively reachable from that arm}"""
+    t = sw.node
+    arms = {}
+    targets = list(t["targets"])
+    if not body.is_unreachable_block(t["otherwise"]):
+        targets.append(("otherwise", t["otherwise"]))
+    reach = {}
+    for val, bb in targets:
+        reach.setdefault(bb, {bb} | body.blocks_reachable_from(bb, avoid={sw.bb}))
+    for val, bb in targets:
+        mine = set(reach[bb])
+        for bb2, rr in reach.items():
+            if bb2 != bb:
+                mine -= rr
+        arms[val] = (bb, mine)
+    return arms
+
+
+def dispatch_table(prog, b):
+    """per Semantics variant: set of solver types constructed in that arm of the match on the
+    semantics parameter; plus the trait whose methods the function calls"""
+    from ..flow import switch_subject
+    from ..core import switch_sites
+
+    sem = prog.adt("aa::problem::Semantics")
+    idx = {str(v["idx"]): v["name"] for v in sem["variants"]}
+    table = {}
+    wildcard = False
+    for sw in switch_sites(b):
+        subj = switch_subject(b, sw)
+        if not subj or not subj[1]:
+            continue
+        if b.local_ty(subj[0]["l"]) != "aa::problem::Semantics" or subj[0]["p"]:
+            continue
+        arms = arm_regions(b, sw)
+        if "otherwise" in arms:
+            wildcard = True
+        by_block = {}
+        for val, (bb, blocks) in arms.items():
+            by_block.setdefault(bb, (set(), blocks))[0].add(idx.get(val, val))
+        for bb, (vals, blocks) in by_block.items():
+            ctors = set()
+            region = {bb} | blocks
+            for x in region:
+                t = b.blocks[x]["term"]
+                if t["k"] == "call" and t.get("callee"):
+                    nm = strip_generics(callee_name(t["callee"]))
+                    if nm.startswith("solvers::") and nm.rsplit("::", 1)[-1].startswith("new"):
+                        ctors.add(nm.rsplit("::", 2)[-2])
+            for v in vals:
+                table.setdefault(v, set()).update(ctors)
+    traits = {c.get("trait") for s in b.calls() for c in [callee_of(s)] if c and c.get("trait") in SOLVER_TRAITS}
+    return table, traits, wildcard
+
+
+def rule_dispatch(ctx):
+    prog = ctx.prog
+    r = ctx.rule(
+        "dispatch-table",
+        "each (query, semantics) pair is dispatched to the solver type the property names (DC-PR through the complete solver, DS-CO and "
+        "SE-CO through the grounded one); no wildcard arm swallows a semantics; each dispatch function only calls methods of its own trait",
+    )
+    for t in prog.bin_targets():
+        dfs = dispatch_functions(prog, t)
+        seen_traits = {}
+        for b in dfs:
+            table, traits, wildcard = dispatch_table(prog, b)
+            anchor = "%s|%s" % (t, b.path)
+            if not r.check(len(traits) == 1, anchor, "traits=%s" % sorted(traits), "calls methods of one solver trait", "dispatch function calls methods of %s" % sorted(traits), b.loc()):
+                continue
+            tr = next(iter(traits))
+            seen_traits[tr] = b
+            oracle = DISPATCH_ORACLE[tr]
+            r.check(not wildcard, anchor, "wildcard-arm", "the match on the semantics has no wildcard arm", "a wildcard arm can swallow a semantics", b.loc())
+            for sem, want in sorted(oracle.items()):
+                got = table.get(sem, set())
+                r.check(got == {want}, anchor + "|" + sem, "got=%s" % sorted(got), "%s -> %s" % (sem, want), "%s is dispatched to %s instead of %s" % (sem, sorted(got), want), b.loc())
+        r.check(set(seen_traits) == set(SOLVER_TRAITS), t, "traits-covered=%s" % sorted(seen_traits), "one dispatch function per solver trait", loc=None)
+        # query -> dispatch function
+        from ..flow import switch_subject
+        from ..core import switch_sites
+
+        q = prog.adt("aa::problem::Query")
+        qidx = {str(v["idx"]): v["name"] for v in q["variants"]}
+        found = False
+        for b in prog.bodies_in(t):
+            for sw in switch_sites(b):
+                subj = switch_subject(b, sw)
+                if not subj or not subj[1] or b.local_ty(subj[0]["l"]) != "aa::problem::Query" or subj[0]["p"]:
+                    continue
+                arms = arm_regions(b, sw)
+                called = {}
+                for val, (bb, blocks) in arms.items():
+                    fns = set()
+                    for x in {bb} | blocks:
+                        tt = b.blocks[x]["term"]
+                        if tt["k"] == "call" and tt.get("callee"):
+                            for tr, db in seen_traits.items():
+                                if strip_generics(callee_name(tt["callee"])) == strip_generics(db.path):
+                                    fns.add(tr)
+                    called[qidx.get(val, val)] = fns
+                if any(called.values()):
+                    found = True
+                    for qn, tr in QUERY_ORACLE.items():
+                        r.check(called.get(qn) == {tr}, "%s|%s|%s" % (t, b.path, qn), "got=%s" % sorted(called.get(qn, [])), "%s -> %s" % (qn, tr.rsplit("::", 1)[-1]), "query %s is answered by %s" % (qn, sorted(called.get(qn, []))), sw.loc())
+        r.check(found, t, "no-query-match", "the solve command matches on the query kind", loc=None)
+
+
+ENCODER_ORACLE = {
+    # (group, encoding string) -> constructor
+    ("STG", "aux_var"): "encodings::aux_var_constraints_encoder::new_for_conflict_freeness",
+    ("STG", "exp"): "encodings::exp_constraints_encoder::new_for_conflict_freeness",
+    ("STG", "hybrid"): "encodings::exp_constraints_encoder::new_for_conflict_freeness",
+    ("SE-PR", "aux_var"): "encodings::aux_var_constraints_encoder::new_for_admissibility",
+    ("SE-PR", "exp"): "encodings::exp_constraints_encoder::new_for_complete_semantics",
+    ("SE-PR", "hybrid"): "encodings::hybrid_complete_constraints_encoder::HybridCompleteConstraintsEncoder",
+    ("other", "aux_var"): "encodings::aux_var_constraints_encoder::new_for_complete_semantics",
+    ("other", "exp"): "encodings::exp_constraints_encoder::new_for_complete_semantics",
+    ("other", "hybrid"): "encodings::hybrid_complete_constraints_encoder::HybridCompleteConstraintsEncoder",
+}
+
+
+def rule_encoder_selection(ctx):
+    """the encoder handed to each solver captures the base semantics the solver needs"""
+    prog = ctx.prog
+    from .satlayer import str_test_of
+
+    r = ctx.rule(
+        "encoder-selection",
+        "create_encoder pairs each semantics group with the encoder of its base semantics: STG -> conflict-freeness, SE-PR -> admissibility "
+        "(aux_var) or complete (exp, hybrid), every other SAT-based problem -> complete; GR and ST get none",
+    )
+    for t in prog.bin_targets():
+        cands = [b for b in prog.bodies_in(t) if b.kind != "closure" and "ConstraintsEncoder" in b.ret_ty and b.ret_ty.startswith("core::option::Option<")]
+        if not r.require_anchor(len(cands) == 1, "function returning Option<Box<dyn ConstraintsEncoder>> in " + t):
+            continue
+        b = cands[0]
+        sem = prog.adt("aa::problem::Semantics")
+        idx = {str(v["idx"]): v["name"] for v in sem["variants"]}
+        got = {}
+        nones = set()
+        for s in b.sites():
+            n = s.node
+            ctor = None
+            if s.si is None and n["k"] == "call" and n.get("callee"):
+                nm = strip_generics(callee_name(n["callee"]))
+                if nm.startswith("encodings::") and ("new_for" in nm):
+                    ctor = nm
+                if callee_matches(n["callee"], r"default::Default::default$") and any("encodings::" in x for x in n["callee"].get("substs", [])):
+                    ctor = [x for x in n["callee"]["substs"] if "encodings::" in x][0]
+                if callee_matches(n["callee"], r"^alloc::boxed::Box::default$|Box<.*Default.*default$"):
+                    sub = [x for x in n["callee"].get("substs", []) if "encodings::" in x]
+                    if sub:
+                        ctor = sub[0]
+            if s.si is not None and n["k"] == "assign" and n["rv"]["k"] == "aggregate" and n["rv"]["agg"].get("variant") == "None" and n["dst"]["l"] == 0:
+                conds = conditions(b, s.bb)
+                for c in conds:
+                    if c.is_discr and b.local_ty(c.place["l"]) == "aa::problem::Semantics" and not c.negated:
+                        nones |= {idx[v] for v in c.values}
+            if ctor is None:
+                continue
+            mbox = re.match(r"^alloc::boxed::Box<(.+)>$", ctor)
+            if mbox:
+                ctor = mbox.group(1)
+            conds = conditions(b, s.bb)
+            sems = None
+            enc = None
+            sepr = False
+            for c in conds:
+                if c.is_discr and b.local_ty(c.place["l"]) == "aa::problem::Semantics":
+                    vs = {idx[v] for v in c.values}
+                    if c.negated:
+                        vs = set(idx.values()) - vs
+                    sems = vs if sems is None else sems & vs
+                t2 = str_test_of(b, c)
+                if t2 and t2[0] == "eq" and t2[2] and t2[1] in ("aux_var", "exp", "hybrid"):
+                    enc = t2[1]
+                if t2 and t2[0] == "eq" and t2[2] and t2[1] == "SE-PR":
+                    sepr = True
+            if sems == {"STG"}:
+                grp = "STG"
+            elif sepr:
+                grp = "SE-PR"
+            else:
+                grp = "other"
+            got.setdefault((grp, enc), set()).add(ctor)
+        for key, want in sorted(ENCODER_ORACLE.items()):
+            g = got.get(key, set())
+            r.check(g == {want}, "%s|%s|%s/%s" % (t, b.path, key[0], key[1]), "got=%s" % sorted(g), "%s with --encoding %s -> %s" % (key[0], key[1], want.rsplit("::", 1)[-1]), "%s with --encoding %s builds %s instead of %s" % (key[0], key[1], sorted(g), want), b.loc())
+        r.check(nones == {"GR", "ST"}, "%s|%s|none" % (t, b.path), "none-for=%s" % sorted(nones), "no encoder for GR and ST only", "no encoder is returned for %s" % sorted(nones), b.loc())
+
+
+# ------------------------------------------------------------------------------------------
+# C05.3 error discipline, C05.4 stdout, C05.6 wrapper flags
+
+ERR_OK_CONSUMERS = r"(try_trait::Try::branch|Result::unwrap|Result::expect|Context::context|Context::with_context|Result::map|Result::map_err|Result::and_then|Option::transpose|Result::unwrap_err)$"
+ERR_DROPPING = r"(Result::ok|Result::unwrap_or|Result::unwrap_or_default|Result::unwrap_or_else|Result::is_ok|Result::is_err|mem::drop)$"
+
+
+def rule_errors_not_dropped(ctx):
+    prog = ctx.prog
+    r = ctx.rule(
+        "errors-not-dropped",
+        "in the binaries every Result<_, anyhow::Error> / io::Result is propagated (`?`, returned, matched, unwrap/expect, context) - never "
+        "dropped, `.ok()`-ed or defaulted (listed exception: the logger's `apply().unwrap_or(())`)",
+    )
+    n = 0
+    for t in prog.bin_targets():
+        for b in prog.bodies_in(t):
+            for s in b.calls():
+                dst = s.node["dst"]
+                ty = b.local_ty(dst["l"])
+                if dst["p"] or not ty.startswith("core::result::Result<"):
+                    continue
+                if not ("anyhow::Error" in ty or "std::io::error::Error" in ty or "clap::errors::Error" in ty or "log::SetLoggerError" in ty or "core::fmt::Error" in ty):
+                    continue
+                c = callee_of(s)
+                nm = strip_generics(callee_name(c)) if c else "<indirect>"
+                if re.search(r"(FromResidual::from_residual|Context::context|Context::with_context|Result::map|Option::transpose)$", nm):
+                    pass  # adaptors: their own result is checked as a site too
+                n += 1
+                cs = consumers(b, dst["l"])
+                anchor = "%s|%s|%s" % (t, b.path, nm.rsplit("::", 2)[-2] + "::" + nm.rsplit("::", 1)[-1] if "::" in nm else nm)
+                if dst["l"] == 0:
+                    r.ok(anchor, "returned", s.loc())
+                    continue
+                real = [x for x in cs if x.kind != "drop"]
+                dropped = [x for x in real if x.kind == "call" and x.info[0] is not None and re.search(ERR_DROPPING, strip_generics(x.info[0]["decl"]))]
+                good = [x for x in real if (x.kind == "call" and x.info[0] is not None and re.search(ERR_OK_CONSUMERS, strip_generics(x.info[0]["decl"]))) or x.kind in ("return", "match", "field", "store")]
+                is_ok_then_returned = any(x.kind == "return" for x in real)
+                if not real:
+                    r.violation(anchor, "dropped", "the Result of %s is dropped: the error cannot reach the failing exit" % nm, s.loc())
+                elif dropped and not is_ok_then_returned and not good:
+                    # listed exception
+                    fn = prog.enclosing_fn(b)
+                    if nm == "fern::builders::Dispatch::apply" and all(re.search(r"Result::unwrap_or$", strip_generics(x.info[0]["decl"])) for x in dropped):
+                        r.ok(anchor, "listed exception: logger initialisation may fail silently (second initialisation in tests)", s.loc())
+                    else:
+                        r.violation(anchor, "swallowed:" + ",".join(sorted({strip_generics(x.info[0]["decl"]).rsplit("::", 1)[-1] for x in dropped})), "the Result of %s is swallowed by %s" % (nm, sorted({strip_generics(x.info[0]["decl"]) for x in dropped})), s.loc())
+                else:
+                    r.ok(anchor, "consumed by %s" % sorted({x.describe() for x in real})[:3], s.loc())
+    r.floor(n, 20, "Result-producing calls in the binaries")
+
+
+import re  # noqa: E402
+
+
+def rule_stdout_writers(ctx):
+    prog = ctx.prog
+    r = ctx.rule(
+        "stdout-writers",
+        "stdout is reached only by: the handle the solve command passes to ResponseWriter methods, `println!` in commands that never "
+        "touch a solver (problems/authors), and the logger sink; never by the library; the ICCMA wrapper forces logging off",
+    )
+    lib_w = [(b, s) for b in prog.lib_bodies() for s in b.calls() if callee_matches(callee_of(s), r"^std::io::stdio::(stdout|_print|stderr|_eprint)$")]
+    r.check(not lib_w, "lib", "writes-stdout", "the library never writes to stdout/stderr", "the library writes to stdout/stderr in %s" % sorted({b.path for b, _ in lib_w}), lib_w[0][1].loc() if lib_w else None)
+    for t in prog.bin_targets():
+        n = 0
+        for b in prog.bodies_in(t):
+            fn = prog.enclosing_fn(b)
+            for s in b.calls():
+                c = callee_of(s)
+                if callee_matches(c, r"^std::io::stdio::_print$"):
+                    n += 1
+                    reach = prog.reachable_from([fn], virtual_dispatch=False)
+                    touches_solver = any((callee_of(x) or {}).get("trait") in SOLVER_TRAITS or callee_matches(callee_of(x), r"^solvers::") for y in reach.values() for x in y.calls())
+                    is_cmd = fn.trait_method == "app::command::Command::execute"
+                    r.check(is_cmd and not touches_solver, "%s|%s" % (t, fn.path), "println", "println! in a command that never touches a solver", "println! in %s, which is not a solver-free command" % fn.path, s.loc())
+                elif callee_matches(c, r"^std::io::stdio::stdout$"):
+                    n += 1
+                    # logger sink or the answer handle
+                    to_logger = any(x.kind == "call" and callee_matches(x.info[0], r"^fern::builders::Dispatch::chain$") for x in consumers(b, s.node["dst"]["l"]))
+                    rw = any((callee_of(x) or {}).get("trait") == "io::specs::ResponseWriter" for y in prog.with_closures(fn) for x in y.calls())
+                    r.check(to_logger or rw, "%s|%s" % (t, fn.path), "stdout", "stdout handle used for %s" % ("the logger sink" if to_logger else "ResponseWriter calls"), "stdout is opened in %s for something other than answers or the logger" % fn.path, s.loc())
+                elif callee_matches(c, r"^std::io::stdio::(stderr|_eprint)$"):
+                    n += 1
+                    r.ok("%s|%s" % (t, fn.path), "stderr", s.loc())
+        r.floor(n, 3, "stdout sites in " + t)
+    # every ResponseWriter call in the bins writes to the stdout handle
+    for t in prog.bin_targets():
+        for b in prog.bodies_in(t):
+            for s in b.calls():
+                c = callee_of(s)
+                if c and c.get("trait") == "io::specs::ResponseWriter":
+                    fn = prog.enclosing_fn(b)
+                    has_stdout = any(callee_matches(callee_of(x), r"^std::io::stdio::stdout$") for x in fn.calls())
+                    r.check(has_stdout, "%s|%s|%s" % (t, fn.path, c["decl"].rsplit("::", 1)[-1]), "writer-target", "answers go to the stdout handle of %s" % fn.path, loc=s.loc())
+
+
+def _str_consts_in(body):
+    out = set()
+    for s in body.sites():
+        n = s.node
+        ops = []
+        if s.si is not None and n["k"] == "assign":
+            ops = n["rv"].get("ops", [])
+        elif s.si is None and n["k"] == "call":
+            ops = n["args"]
+        for o in ops:
+            k = op_const(o)
+            if k is not None and "str" in k:
+                out.add(k["str"])
+    return out
+
+
+def clap_definitions(prog, target):
+    """(subcommand names, long options, {arg: possible values})"""
+    longs = set()
+    subs = set()
+    possible = {}
+    for b in prog.bodies_in(target):
+        for s in b.calls():
+            c = callee_of(s)
+            if callee_matches(c, r"^clap::args::arg::Arg::long$"):
+                for o in origins(b, s.node["args"][1]):
+                    if o.kind == "const" and "str" in o.data:
+                        longs.add(o.data["str"])
+                        # possible values attached to the same builder chain
+                        pv = set()
+                        for x in b.calls():
+                            if callee_matches(callee_of(x), r"^clap::args::arg::Arg::possible_values$"):
+                                for oo in origins(b, x.node["args"][1]):
+                                    if oo.kind == "const" and "str" in oo.data:
+                                        pv |= set(oo.data["str"].split("\x1f"))
+                                    if oo.kind == "agg" and oo.data["kind"] == "array":
+                                        for op in oo.site.node["rv"]["ops"]:
+                                            k = op_const(op)
+                                            if k and "str" in k:
+                                                pv.add(k["str"])
+                        possible[o.data["str"]] = pv
+            if callee_matches(c, r"^clap::args::subcommand::SubCommand::with_name$"):
+                for o in origins(b, s.node["args"][0]):
+                    if o.kind == "const" and "str" in o.data:
+                        subs.add(o.data["str"])
+    return subs, longs, possible
+
+
+def rule_wrapper_flags(ctx):
+    prog = ctx.prog
+    r = ctx.rule(
+        "wrapper-flags",
+        "every literal argument injected by the ICCMA'23 wrapper names a sub-command / long option / value declared by the clap definitions, and "
+        "all three branches inject `--logging-level off`",
+    )
+    t = "bin:crustabri_iccma23"
+    main_files = {b.file for b in prog.bodies_in(t) if b.path == "main"}
+    tr = [b for b in prog.bodies_in(t) if b.file in main_files and b.kind != "closure" and b.path != "main"]
+    if not r.require_anchor(tr, "argument translation function of the wrapper"):
+        return
+    subs, longs, possible = clap_definitions(prog, t)
+    # literals that flow into the returned argument vector (comparisons against the real arguments do not)
+    lits = set()
+    for b in tr:
+        if "OsString" not in b.ret_ty:
+            continue
+        _, _, consts = data_deps(b, {"l": 0, "p": []})
+        for k in consts:
+            if "str" in k:
+                lits.add(k["str"])
+    flat = set()
+    for l in lits:
+        flat |= set(l.split("\x1f"))
+    flat.discard("unknown app name")
+    const_args = set()
+    for (tt, path), c in prog.consts.items():
+        if tt == t and not path.startswith("app::"):
+            pass
+    for l in sorted(flat):
+        if l.startswith("--"):
+            r.check(l[2:] in longs, t + "|" + l, "undeclared-option", "%s is a declared long option" % l, "the wrapper injects %s, which no clap definition declares" % l)
+        elif l in subs:
+            r.ok(t + "|" + l, "%s is a declared sub-command" % l)
+        elif any(l in pv for pv in possible.values()):
+            r.ok(t + "|" + l, "%s is a declared option value" % l)
+        elif l == "":
+            continue
+        else:
+            r.violation(t + "|" + l, "unknown-literal", "the wrapper injects the literal %r, which is neither a sub-command, a long option nor a declared value" % l)
+    need = {"--logging-level", "off", "solve", "problems", "authors", "--with-certificate", "--reader", "iccma23"}
+    r.check(need <= flat, t, "missing:%s" % sorted(need - flat), "the wrapper injects %s" % sorted(need), "the wrapper no longer injects %s" % sorted(need - flat))
+    r.check("off" in possible.get("logging-level", set()) and "iccma23" in possible.get("reader", set()), t, "values", "`off` and `iccma23` are declared values of their options", loc=None)
